@@ -6,7 +6,7 @@ CHECKS = [
  ("C01","exploration","bounded exhaustive input/configuration enumeration on the implementation (explicit product of key x every payload length x footer x assertion x owned RNG answers; no sampling), odd cases on cloned key objects; two-step histories on a fresh OS thread over selected cases",
   "Round-trip identity over every cell of the product on the real code; library nonces via the owned getrandom / libsodium seams, aws-lc ECDSA (r,s) width classes via the H1 nonce seam.",
   "Payload contents: one pattern per length. aws-lc DRBG values and RSA-PSS salts are not ownable (repeated, value-independent oracle)."),
- ("C02","fault_enumeration","exhaustive fault enumeration per base token (every bit, byte value, truncation, extension, boundary shift incl. length-imitating zero-filled pieces, relabel, typed-footer re-encoding, text segments appended, every piece length 0..600 with every piece altered, key bit) executed on the implementation",
+ ("C02","fault_enumeration","exhaustive fault enumeration per base token (every bit, byte value, truncation, extension, boundary shift incl. length-imitating zero-filled pieces, relabel, typed-footer re-encoding, text segments appended, every piece length 0..600 with every piece altered, payload-suffix relabel, key bit) executed on the implementation; plus the PAE-exactness oracle at every piece length (authenticated input == specification encoding, hence injective)",
   "Every fault of every listed class is applied to every base token and unsealed; any acceptance is a violation; the untouched token must be accepted (witness).",
   "Fault classes are exactly those the statement lists (single-bit, truncation/extension, boundary shifts, relabels, other keys); ECDSA (r,n-s) is not a single-bit change."),
  ("C03","exploration","bounded exhaustive enumeration vs executable reference models (spec-derived, vector-validated), incl. counter-carry states reached directly or through the H2 seam; two-step histories on a fresh OS thread over selected cases",
@@ -57,7 +57,7 @@ CHECKS = [
  ("C18","exploration","exhaustive generated program catalogue (operation x token purpose x key kind x key version, crate aliases, conversions, printing, field access) compiled by rustc; expected verdicts from a typing table",
   "Every misuse program is rejected by the compiler, every correct counterpart compiles.",
   "A program is rejected when rustc reports an error on its own line; name-resolution errors are iterated out so all others are judged by the type checker."),
- ("C19","exploration","BFS over the feature-closure lattice (cargo check per closure) and reduced-build behaviour probes compared with the full build's transcript",
+ ("C19","exploration","BFS over the feature-closure lattice (cargo check per closure) and reduced-build behaviour probes (paseto-v1..v4 over the key-byte alphabet; paseto-json over 30 000 number literals) compared with the full build's transcript",
   "Every closure compiles; every operation a reduced build offers yields exactly the full build's output.",
   "Quick tier: 12 closures per crate compiled and 6 probed; thorough: all closures."),
 ]
